@@ -103,6 +103,22 @@ extern "C" void harness_labels()  /* vf: bounds=2_templates;label_presence(selec
     vf_reach("end");
 }
 
+extern "C" void harness_location_flags()  /* vf: bounds=4_locations_each_plain/urgent/committed(lists_of_several_urgent_/_committed_names_in_XTA)_x_6_white-space_paddings_of_the_XML_names reach=end */
+{
+    MModel m; m.gdecl = GDECL; m.system = "system T;";
+    MTemplate t = base_template("T", 0);
+    t.locs.push_back(MLoc{"id3", "D"});
+    for (int l = 0; l < 4; l++) { int f = vf_pick(("!flag" + std::to_string(l)).c_str(), 3); t.locs[l].urgent = f == 1; t.locs[l].committed = f == 2; }
+    static const char* PADS[][2] = {{"", ""}, {" ", ""}, {"", " "}, {"  ", "  "}, {"\n      ", "\n    "}, {"\t", "\r\n"}};
+    int pad = vf_pick("!name_padding", 6);
+    xml_name_pad_left = PADS[pad][0]; xml_name_pad_right = PADS[pad][1];
+    MEdge e; e.src = 0; e.dst = 3; e.guard = "g < 1"; t.edges = {e};
+    m.templs = {t};
+    compare(m, false);
+    xml_name_pad_left = xml_name_pad_right = "";
+    vf_reach("end");
+}
+
 extern "C" void harness_declarations()  /* vf: bounds=template_parameters,local_declarations_and_functions,partial_instantiation,priorities:6_variants_in_both_formats reach=end */
 {
     MModel m; m.gdecl = std::string(GDECL) + " int f1(int p) { return p + 1; } typedef int[0,3] small_t; small_t sv;";
